@@ -12,12 +12,12 @@ RULE = ("A case is (token, key, credential form hex/bytes, device nonce, scenari
         "listed alteration in both scenarios; 'random_keys' repeats random alterations under fresh random "
         "credentials. Distinct = distinct (credentials, scenario, alteration); non-trivial = a handshake reply "
         "crossed the wire or was withheld."
-        " Later additions: genuine replies that are late or follow lost requests (must succeed), a status report pushed right behind the reply (must succeed and the report must be readable), a refused token followed by a hang-up and then the genuine credentials, a reset / FIN instead of a reply, printable raw keys and tokens.")
+        " Later additions: re-authentication with the very pair that is stored while the reply is altered (stored pair must survive, the next poll re-handshakes with it); genuine replies that are late or follow lost requests (must succeed), a status report pushed right behind the reply (must succeed and the report must be readable), a refused token followed by a hang-up and then the genuine credentials, a reset / FIN instead of a reply, printable raw keys and tokens.")
 ASSUMPTIONS = [
     "RefDevice issues reply = AES-256-CBC(key, nonce) || SHA-256(nonce), session key = nonce XOR key (vendor scheme)",
     "flips in the 8 header/counter bytes are unauthenticated by protocol design: only containment is asserted there",
     "in the stored-credentials scenario the client re-authenticates with a second credential pair the device answers "
-    "under its own key (a reply under a different key) - the stored pair must survive",
+    "under its own key (a reply under a different key), or (flag 'same') with the stored pair itself while the reply is altered - the stored pair must survive",
 ]
 COMPONENTS = {"real": REAL_BASE + ["AirConditioner.authenticate -> LAN.authenticate -> _LanProtocolV3.authenticate/"
                                    "_get_local_key; AirConditioner.refresh afterwards"], "stub": STUB_BASE}
@@ -88,6 +88,7 @@ def run(plan):
         if scenario != "fresh":
             scenario = "fresh"
     containment_only = alt.get("containment_only", False)
+    same = bool(plan.get("same")) and scenario == "stored"
 
     async def main(w):
         ac = s.make_clients()[0]
@@ -117,6 +118,13 @@ def run(plan):
                 cred = (tok2, key2)
             d = dict(hs or {})
             d["force_reply"] = True
+            if same:
+                # the re-authentication uses the very pair that is stored (an application refreshing its session, or
+                # one that simply calls authenticate() before every poll); the unit knows it, the reply is altered
+                tok2 = s.token
+                cred = (s.token.hex(), s.key.hex()) if s.cfg.get("cred_form", "hex") == "hex" else (s.token, s.key)
+                d.pop("force_reply")
+                w.fire("reauth_with_the_stored_pair")
             dev.hs_script = [dict(d) for _ in range(3)]
             from simkit.world import capture
             o = await capture(w, ac.authenticate(*cred))
@@ -160,7 +168,10 @@ def run(plan):
         if escaped:
             res.fail(f"authenticate raised {o.exc_type} (not AuthenticationError)", f"{alt['name']} {scenario}: {o.exc!r}")
             return
-        must_fail = (not genuine and not containment_only) or scenario == "stored"
+        must_fail = (not genuine and not containment_only) or (scenario == "stored" and not same)
+        if same and genuine and o.kind != "ok":
+            res.fail(f"genuine handshake raised {o.exc_type}", f"re-authentication with the stored pair: {o.exc!r}")
+            return
         if must_fail and o.kind == "ok":
             res.fail("authentication succeeded on a reply that does not prove the key", f"{alt['name']} {scenario}")
             return
@@ -259,7 +270,7 @@ def run(plan):
         res.fail("exception escaped data_received: " + w.net.protocol_exceptions[0][1], repr(w.net.protocol_exceptions[0]))
     res.take(w)
     res.add_fired(dev.fired)
-    res.key = (plan["config"].get("key"), plan["config"].get("cred_form"), scenario, alt["name"], bool(plan.get("expired")),
+    res.key = (plan["config"].get("key"), plan["config"].get("cred_form"), scenario, same, alt["name"], bool(plan.get("expired")),
                plan.get("lifetime"), bool(plan.get("lifetime_then_none")))
     res.nontrivial = True
     return res
@@ -274,8 +285,9 @@ def space(tier):
         return {"config": {"version": 3, "cred_form": ["hex", "bytes"][(j // (2 * len(ALTS))) % 2],
                            "token": rand_bytes(rng, 64).hex(), "key": rand_bytes(rng, 32).hex(),
                            "device_id": rand_id(rng)}, "scenario": scenario, "alt": alt,
-                "expired": scenario == "stored" and (j // (4 * len(ALTS))) % 2 == 1}
-    sp.add("enumerated", len(ALTS) * 2 * (4 if tier == "quick" else 8), enum, exhaustive=True)
+                "expired": scenario == "stored" and (j // (4 * len(ALTS))) % 2 == 1,
+                "same": scenario == "stored" and (j // (8 * len(ALTS))) % 2 == 1}
+    sp.add("enumerated", len(ALTS) * 2 * (8 if tier == "quick" else 16), enum, exhaustive=True)
 
     def rnd(j, rng):
         alt = rng.choice(ALTS) if rng.random() < 0.9 else {"name": "genuine"}
@@ -295,6 +307,7 @@ def space(tier):
             p["lifetime"] = rng.choice([1, 2, 5, 30])
             # (the variant with an earlier successful handshake only where the judged one is genuine too)
             p["lifetime_then_none"] = rng.random() < 0.4 and (p["alt"]["name"] == "genuine" or bool(p["alt"].get("expect_success")))
+        p["same"] = p["scenario"] == "stored" and rng.random() < 0.35
         return p
     sp.add("random_keys", 8000 if tier == "quick" else 1_500_000, rnd)
     return sp
